@@ -59,6 +59,7 @@ type Sched struct {
 	noTimers bool // timers never fire (harness option)
 	switches int
 	yieldOnly  bool
+	preemptBudget int // remaining preemptions at synchronisation operations (G2)
 	maxPreempt int
 	preempts   int
 }
@@ -406,6 +407,7 @@ func (e *Exec) doSelect(fr *frame, instr ssa.Instruction, cases []selCase, hasDe
 }
 
 func (e *Exec) chanSend(fr *frame, instr ssa.Instruction, ch *ChanV, v Value) {
+	e.preemptPoint(fr)
 	if ch != nil && ch.closed {
 		fr.rtPanic(instr, "send on closed channel")
 	}
@@ -413,6 +415,7 @@ func (e *Exec) chanSend(fr *frame, instr ssa.Instruction, ch *ChanV, v Value) {
 }
 
 func (e *Exec) chanRecv(fr *frame, instr *ssa.UnOp, ch *ChanV) (Value, bool) {
+	e.preemptPoint(fr)
 	_, v, ok := e.doSelect(fr, instr, []selCase{{ch, false, nil}}, false)
 	if !ok {
 		v = e.zero(instr.X.Type().Underlying().(*types.Chan).Elem())
@@ -421,6 +424,7 @@ func (e *Exec) chanRecv(fr *frame, instr *ssa.UnOp, ch *ChanV) (Value, bool) {
 }
 
 func (e *Exec) chanClose(fr *frame, pos token.Pos, ch *ChanV) {
+	e.preemptPoint(fr)
 	if ch == nil {
 		panic(targetPanic{e.runtimeError("close of nil channel"), "close@" + e.pos(pos)})
 	}
@@ -431,6 +435,7 @@ func (e *Exec) chanClose(fr *frame, pos token.Pos, ch *ChanV) {
 }
 
 func (e *Exec) selectStmt(fr *frame, instr *ssa.Select) Value {
+	e.preemptPoint(fr)
 	cases := make([]selCase, len(instr.States))
 	for i, st := range instr.States {
 		c := selCase{ch: fr.get(st.Chan).(*ChanV)}
@@ -505,4 +510,46 @@ func (e *Exec) fireNextTimer() bool {
 		t.fn()
 	}
 	return true
+}
+
+// preemptPoint is called before synchronisation operations (locks, atomics,
+// channel operations). While the preemption budget lasts, the running
+// goroutine may be preempted in favour of any other runnable goroutine
+// (CHESS-style preemption bounding; switches at blocking points stay free).
+func (e *Exec) preemptPoint(fr *frame) {
+	s := e.sched
+	if s.preemptBudget <= 0 {
+		return
+	}
+	self := e.curG(fr)
+	var others []*G
+	for _, g := range s.gs {
+		if g == self || g.done {
+			continue
+		}
+		if g.ready == nil || g.ready() {
+			others = append(others, g)
+		}
+	}
+	if len(others) == 0 {
+		return
+	}
+	k := e.chooseN(len(others)+1, "preempt")
+	if k == 0 {
+		return
+	}
+	s.preemptBudget--
+	pick := others[k-1]
+	s.switches++
+	s.cur = pick
+	pick.resume <- true
+	if !<-self.resume {
+		panic(abortG{})
+	}
+	s.cur = self
+	if self.isMain && s.fatal != nil {
+		f := s.fatal
+		s.fatal = nil
+		panic(f)
+	}
 }
